@@ -610,7 +610,7 @@ class ProgGen:
         e = self.expr(ty, d, True)
         ops = []
         if is_int(ty):
-            ops = ["+", "-", "*", "/", "%", "^", "&", "|", "<<", ">>"]
+            ops = ["+", "-"] if "core" in self.features else ["+", "-", "*", "/", "%", "^", "&", "|", "<<", ">>"]
         elif ty["k"] == "bool":
             ops = ["^", "&", "|"]
         if ops and self.rng.random() < 0.4:
